@@ -74,6 +74,20 @@ def build_case(h1: History, second: Optional[int], sch: str, to_date: Optional[d
             "reports": ["open_positions"], "allow_negative": False}
 
 
+def alias_exchange(case: Dict[str, Any]) -> Dict[str, Any]:
+    """The same case with exchange X1 renamed to 'H2' - a wallet called like one of the holders (a name is free text in both lists)."""
+    def ren(v: Any) -> Any:
+        return "H2" if v == "X1" else v
+
+    c = dict(case)
+    c["assets"] = {a: [{k: (ren(v) if k in ("exchange", "from_exchange", "to_exchange") else v) for k, v in s.items()} for s in specs] for a, specs in case["assets"].items()}
+    c["sheets"] = {a: [[ren(v) for v in row] for row in rows] for a, rows in case["sheets"].items()}
+    c["ini_kw"] = {"exchanges": ["H2", "X2", "X3"]}
+    c["label"] = case["label"] + " [exchange X1 is called 'H2', like a holder]"
+    c["alias"] = True
+    return c
+
+
 def check(case: Dict[str, Any], res: Dict[str, Any]) -> Tuple[List[str], Dict[str, int]]:
     from rp2verif import fullreport as FR
     from rp2verif import odsread as O
@@ -200,7 +214,7 @@ def judge(st: Stats, case: Dict[str, Any]) -> None:
     st.inc("evaluations")
     res = G.run(case)
     payload = {"case": {"hist": case["hist"], "second": case["second"], "schedule_name": case["schedule_name"], "to": str(case["to"]) if case["to"] else None,
-                        "tz": case.get("tz", 0), "price_scale": case.get("price_scale", "1")}}
+                        "tz": case.get("tz", 0), "price_scale": case.get("price_scale", "1"), "alias": case.get("alias", False)}}
     tag = case["label"]
     if res["error"]:
         st.violation(dict(payload, signature=f"C15 no report: {res['stage']} / {res['error'].split(':')[0]} / {res.get('where', '')}", what=f"{tag} :: {res['stage']}: {res['error'][:200]}"))
@@ -259,6 +273,13 @@ def cases(tier: str) -> List[Dict[str, Any]]:
                             c = build_case(h, second, m, td)
                             if c:
                                 out.append(c)
+                if d <= 2:
+                    # the same history with an exchange that is called like a holder
+                    for second in (0, 1):
+                        for td in to_dates([s1, H.materialize(SECOND[second], uid=True) or []], "few"):
+                            c = build_case(h, second, "fifo", td)
+                            if c:
+                                out.append(alias_exchange(c))
                 if d <= 2:
                     # the same history with every price x 1/320000 (a token worth a fraction of a cent: per-unit cost ~ 1e-5, many decimals)
                     for m in ("fifo", "hifo"):
@@ -342,6 +363,8 @@ def replay(path: str) -> int:
     c = p["case"]
     case = build_case(_to_tuple(c["hist"]), c["second"], c["schedule_name"], date.fromisoformat(c["to"]) if c["to"] else None, c.get("tz", 0), Fraction(c.get("price_scale", "1")))
     assert case is not None
+    if c.get("alias"):
+        case = alias_exchange(case)
     ctx = mp.get_context("fork")
     with ctx.Pool(1, initializer=init) as pool:
         st = pool.apply(worker, ([case],))
